@@ -41,6 +41,19 @@ def run_impl(cases, timeout=600, harness='ofdrv'):
                 break
         if done == len(todo) and rc == 0:
             return
+        if err == 'TIMEOUT' and done < len(todo):
+            # the wall-clock limit covers the whole batch, so running out of it says nothing about one case (a loaded machine is
+            # enough): go on from the interrupted case; only a case that, run alone, still does not finish is reported as a hang
+            if done > 0:
+                todo = todo[done:]
+                continue
+            rc1, o1, e1 = _run_chunk(exe, todo[:1], max(timeout, 900))
+            if e1 != 'TIMEOUT' and len(o1) >= len(todo[0].lines) and rc1 == 0:
+                todo[0].impl = o1[:len(todo[0].lines)]
+                todo = todo[1:]
+                continue
+            rc, outs, err = rc1, o1, e1
+            todo[0].impl = o1[:len(todo[0].lines)]
         if done == len(todo):
             # every line answered but the process failed at exit (LeakSanitizer): find up to 3 culprits by bisection
             found = []
